@@ -357,7 +357,7 @@ def flatten(cfg):
             "parent": [0] + [1] * (m - 1),
             "req": [[]] + [sorted(newid[r] for r in flatreq(a)) for a in atoms],
             "horizon": cfg.get("horizon", 0)}
-    for key in ("crit", "forever", "win", "tmo", "stmo", "dur", "out", "sdur", "cdur"):
+    for key in ("crit", "forever", "win", "tmo", "stmo", "dur", "out", "sdur", "cdur", "scdur"):
         flat[key] = [cfg[key][0]] + [cfg[key][a - 1] for a in atoms]
     back = [1] + atoms
     return flat, back
